@@ -25,8 +25,8 @@ SKELS = {
             ['A2', 'a,A2'],
             ['A4', 'a,A3,a', 'A2,A2']),
     'C09': (['a,n', 'a,a,n,n', 'a,a,b', 'a,n,a,n', 'a,n,n', 'a,n,a|a,X', 'a,a,n,a|a/b', 'a,a,n,a|a,X/b', 'a,b,a,b', 'a,a,n,X,a,n'],
-            ['a,n', 'a,a,n'],
-            ['a,a,a,n,b', 'A3,n,n', 'a,a,n,a,b,n', 'a,a,n,n', 'a,a,b']),
+            ['a,n'],
+            ['a,a,n', 'a,a,a,n,b', 'A3,n,n', 'a,a,n,a,b,n', 'a,a,n,n', 'a,a,b']),
     # power loss under SyncEach: appends (single, batch, with rotation in the medium group) and consuming reads
     'C10': (['a', 'a,a', 'a,n', 'a,n,n', 'a,a,n,a', 'A2,n', 'a,b,a', 'a,n,X,a,n', 'a,n,a|a,X'],
             ['a,a', 'a,n'],
@@ -243,13 +243,15 @@ def run(prop, tier, seed):
         if dr == 'b':
             j['drain'] = 'batch'
         return j
-    jobs = [mkjob(s, b, sizecap=4096) for s in tiny for b in ('fd', 'mmap')]
+    jobs = [mkjob(s, b, sizecap=4096) for s in tiny for b in (('fd', 'mmap') if not (tier == 'quick' and s.count('A') > 1) else ('fd',))]
     if prop == 'C09':
         jobs += [dict(mkjob(s, 'fd', sizecap=4096), consistency='AtLeastOnce', persist_every=pe_) for s in tiny[:5] for pe_ in (2, 3)]
-    jobs += [mkjob(s, b) for s in medium for b in ('fd', 'mmap')]
+    # medium group: both back ends for the first history, FD only for the others in the quick tier (the mmap back end
+    # writes a batch entry by entry, which multiplies the crash points; the thorough tier runs all of them)
+    jobs += [mkjob(s, b) for k_, s in enumerate(medium) for b in (('fd', 'mmap') if (k_ == 0 or tier == 'thorough') else ('fd',))]
     if tier == 'thorough':
         jobs += [mkjob(s, b) for s in more for b in ('fd', 'mmap')]
-    agg = runner.explore_jobs('rsym.drivers.crash', 'mk', docs, jobs, dict(seed=seed, eager_div=6), min(12, runner.ncpu()), 240 if tier == 'quick' else 2400)
+    agg = runner.explore_jobs('rsym.drivers.crash', 'mk', docs, jobs, dict(seed=seed, eager_div=6), min(12, runner.ncpu()), 420 if tier == 'quick' else 2400)
     rep.absorb(agg)
     res = agg['results']
     rep.states += len(res)
